@@ -344,6 +344,7 @@ func c05R4(p *engine.Prog, r *engine.Report) {
 	envResetPrecedesRule(p, r, "C05-R5")
 	chargedCostRule(p, r, "C05-R5")
 	c05R6(p, r, "C05-R6")
+	c05R7(p, r)
 	r.Floor("C05-R5", 2, "total cost + reset")
 }
 
@@ -387,4 +388,85 @@ func c05R6(p *engine.Prog, r *engine.Report, rule string) {
 		}
 	}
 	r.OK(rule, "blockchain/types|signers are recovered from (signature hash, signature) or a memo on the object", "", itoa(int64(n))+" returns fed by shared state")
+}
+
+// c05R7: (a) the links between an inviter and its invitees are removed for EVERY invitee when the
+// inviter goes: no loop ranges over the slice returned by StateDB.GetInvitees while its body removes
+// from that very list (RemoveInvitee deletes in place; a ranged copy of the slice header walks a
+// shifting array and skips every second element — the skipped invitees keep an inviter that can still
+// kill them); (b) dropping a pending undelegation clears the delegatee with it: the epoch-end expiry
+// relies on RemovePendingUndelegation alone, a remaining delegatee lets the former pool kill the
+// identity and take its stake.
+func c05R7(p *engine.Prog, r *engine.Report) {
+	n := 0
+	for _, pkg := range []string{"blockchain", "core/ceremony", "core/state"} {
+		for _, f := range funcsOfPkg(p, pkg) {
+			if f.Blocks == nil || isTestish(p.Pos(f.Pos())) {
+				continue
+			}
+			for _, c := range callsTo(f, "core/state.StateDB.RemoveInvitee") {
+				n++
+				hdr := enclosingLoopHeader(c.Block())
+				bad := false
+				if hdr != nil {
+					// is the loop a range/index loop over a GetInvitees(...) result evaluated once?
+					for _, b := range []*ssa.BasicBlock{hdr} {
+						for _, ins := range b.Instrs {
+							_ = ins
+						}
+					}
+					body := loopBlocks(hdr)
+					for _, g := range callsTo(f, "core/state.StateDB.GetInvitees") {
+						if body[g.Block()] {
+							continue // re-read inside the loop: fine
+						}
+						gv, ok := g.(*ssa.Call)
+						if !ok || gv.Referrers() == nil {
+							continue
+						}
+						// the once-read slice is indexed / ranged inside the loop
+						for _, ref := range *gv.Referrers() {
+							if body[ref.Block()] {
+								bad = true
+							}
+							if rg, isR := ref.(*ssa.Range); isR {
+								_ = rg
+								bad = true
+							}
+						}
+						// `for _, x := range s.GetInvitees(a)`: len() before the loop, IndexAddr inside
+						for _, ref := range *gv.Referrers() {
+							if cl, isC := ref.(*ssa.Call); isC {
+								if bi, isB := cl.Call.Value.(*ssa.Builtin); isB && bi.Name() == "len" && !body[cl.Block()] {
+									bad = true
+								}
+							}
+						}
+					}
+				}
+				r.Check(!bad, "C05-R7", uniq(r, engine.RelName(f)+"|the invitee list is not ranged over while it is being emptied"), p.InstrPos(c), "list re-read on every iteration (or no loop)", "RemoveInvitee is called inside a loop that walks a slice obtained from GetInvitees once: the list is modified in place underneath the iteration and every second invitee is skipped — it keeps its Inviter link, and the dead inviter's address can still kill it (KillInviteeTx) and burn its stake")
+			}
+		}
+	}
+	if n == 0 {
+		r.Und("C05-R7", "RemoveInvitee|call sites", "", "none found")
+	}
+	if f, _ := p.Func("core/state", "stateIdentity.RemovePendingUndelegation"); f != nil {
+		r.Fn(engine.FuncName(f))
+		wrote := map[string]bool{}
+		for _, b := range f.Blocks {
+			for _, ins := range b.Instrs {
+				if st, ok := ins.(*ssa.Store); ok {
+					if _, fld, okF := engine.FieldOf(st.Addr); okF && len(controlSig(b)) == 0 {
+						if k, isK := engine.Unwrap(st.Val).(*ssa.Const); isK && (k.IsNil() || (k.Value != nil && k.Value.ExactString() == "false")) {
+							wrote[fld] = true
+						}
+					}
+				}
+			}
+		}
+		r.Check(wrote["pendingUndelegation"] && wrote["delegatee"], "C05-R7", "stateIdentity.RemovePendingUndelegation|the delegatee is cleared together with the pending undelegation", p.Pos(f.Pos()), "flag reset and delegatee set to nil unconditionally", "RemovePendingUndelegation leaves the delegatee in place: after the epoch-end expiry of a pending undelegation the identity counts as a delegator of its former pool again — the pool's KillDelegatorTx passes validation, kills the identity and collects its stake")
+	} else {
+		r.Und("C05-R7", "stateIdentity.RemovePendingUndelegation", "", "function not found")
+	}
 }
